@@ -1387,7 +1387,8 @@ func c26Emit(w *bufio.Writer, rpc c26Rpc, msg proto.Message, mode string, label 
 var c26GenTel = false // telemetry collector configured in the case being generated
 
 func c26WritesKeys(rpc string) bool {
-	return c26Keyed(rpc)
+	// plus the two readers that leave an empty swamp behind on the legacy engine (recorded finding)
+	return c26Keyed(rpc) || rpc == "Uint32SliceSize" || rpc == "Uint32SliceIsValueExist"
 }
 
 func c26Gen(rng *rand.Rand, tier string, w *bufio.Writer) {
@@ -1439,7 +1440,7 @@ func c26Gen(rng *rand.Rand, tier string, w *bufio.Writer) {
 				// second engine / collector: the engine-dependent inputs only
 				var f2 []c26Mut
 				for _, m := range first {
-					if m.kind == "oversize" || m.kind == "emptymsg" || c26GenTel {
+					if m.kind == "oversize" || m.kind == "emptymsg" || c26GenTel || strings.Contains(c26Shape(m.msg, "w"), "p3,ne0,ep0,x0") {
 						f2 = append(f2, m)
 					}
 				}
